@@ -128,19 +128,26 @@ func (f *Field) sortArgs() (errors []error) {
 	f.Args = f.written
 	f.badArgs = nil
 	if 0 < len(f.Args) {
-		if ot, _ := f.ConType.(*Object); ot != nil {
-			if fd := ot.fields.get(f.Name); fd != nil {
-				args := make([]*ArgValue, 0, len(f.Args))
-				for _, a := range fd.args.list {
-					args = append(args, f.getArg(a.N))
-				}
-				for _, av := range f.Args {
-					if fd.getArg(av.Arg) == nil {
-						f.badArgs = append(f.badArgs, av)
-					}
-				}
-				f.Args = args
+		// The container is an object, or an interface when the value the
+		// field is evaluated on is bound to no object type.
+		var fd *FieldDef
+		switch ct := f.ConType.(type) {
+		case *Object:
+			fd = ct.fields.get(f.Name)
+		case *Interface:
+			fd = ct.fields.get(f.Name)
+		}
+		if fd != nil {
+			args := make([]*ArgValue, 0, len(f.Args))
+			for _, a := range fd.args.list {
+				args = append(args, f.getArg(a.N))
 			}
+			for _, av := range f.Args {
+				if fd.getArg(av.Arg) == nil {
+					f.badArgs = append(f.badArgs, av)
+				}
+			}
+			f.Args = args
 		}
 	}
 	return f.badArgErrors()
